@@ -57,7 +57,7 @@ func runC17Sio(c *sim.Ctx, t *testing.T) {
 		nops := 1 + c.Intn(5, "nops")
 		for i := 0; i < nops; i++ {
 			id := ids[c.Intn(len(ids), "id")]
-			switch k := c.Intn(7, "op"); {
+			switch k := c.Intn(8, "op"); {
 			case k <= 2 && !pending[id] && !remade[id]:
 				op := &vfTmOp{kind: "make", id: id, d: vfDelays[c.Intn(len(vfDelays), "d")], payload: newPayload()}
 				byPayload[op.payload] = op
@@ -84,6 +84,10 @@ func runC17Sio(c *sim.Ctx, t *testing.T) {
 				byPayload[op.payload] = op
 				pending[id] = true
 				plans[r] = append(plans[r], op)
+			case k == 7:
+				// an operator's crew update that names the timers machine without giving it a
+				// state: nothing about the timers may change
+				plans[r] = append(plans[r], &vfTmOp{kind: "refresh"})
 			case k <= 4:
 				plans[r] = append(plans[r], &vfTmOp{kind: "cancel", id: id})
 				if c.Chance(1, 2, "settle") {
@@ -157,6 +161,9 @@ func runC17Sio(c *sim.Ctx, t *testing.T) {
 					if op.kind == "make" {
 						msg = vfMakeMsg(op)
 						lg.Add(sim.Ev{Kind: "make.inv", Id: op.id, Val: op.payload, N: int64(op.d), Err: rid})
+					} else if op.kind == "refresh" {
+						msg = map[string]interface{}{"to": "captain", "update": map[string]interface{}{"timers": map[string]interface{}{}}}
+						lg.Add(sim.Ev{Kind: "refresh.inv", Err: rid})
 					} else if op.kind == "debounce" {
 						mk := vfMakeMsg(&vfTmOp{id: op.id, d: op.d, payload: op.payload})
 						msg = map[string]interface{}{"to": "h", "id": "db-" + op.payload, "emit": map[string]interface{}{"h": []interface{}{
@@ -231,6 +238,8 @@ func runC17Sio(c *sim.Ctx, t *testing.T) {
 			reqs[e.Err] = &reqInfo{"cancel", e.Id, "", 0, e}
 		case "debounce.inv":
 			reqs[e.Err] = &reqInfo{"debounce", e.Id, e.Val, time.Duration(e.N), e}
+		case "refresh.inv":
+			reqs[e.Err] = &reqInfo{"refresh", "", "", 0, e}
 		case "proc":
 			curReq = e.Err
 		case "recv":
@@ -262,7 +271,9 @@ func runC17Sio(c *sim.Ctx, t *testing.T) {
 			// the request this result answers
 			if q := reqs[curReq]; curReq != "" && q != nil {
 				inv := q.inv
-				if q.kind == "make" {
+				if q.kind == "refresh" {
+					c.Count("crew_updates_naming_the_timers_machine")
+				} else if q.kind == "make" {
 					hist = append(hist, sim.Ev{Seq: inv.Seq, Task: curReq, Kind: "add.inv", Id: q.id, Val: q.payload, N: int64(q.d), At: inv.At})
 					hist = append(hist, sim.Ev{Seq: retSeq, Task: curReq, Kind: "add.ret", Id: q.id, Val: q.payload, At: e.At})
 				} else if q.kind == "debounce" {
